@@ -25,7 +25,11 @@ NArr == Cardinality({ i \in 1..Len(path) : path[i].k = "[]" })
 KeysAt(nt) == IF Deviations < GMWide THEN AllKeys(nt) ELSE RepKeys(nt)
 
 LabAt(nt, kind) == IF kind \in G[nt].fk THEN "free" ELSE G[nt].lab
-GLeaf(nt, kind) == IF kind = "nsname" THEN NsName ELSE Leaf(kind, LabAt(nt, kind))
+\* a "$..." string is a field reference where the grammar expects an expression or a literal; in a position of
+\* operational parameters it is just an odd parameter (label free)
+GLeaf(nt, kind) == IF kind = "nsname" THEN NsName
+                   ELSE IF kind = "dollar" /\ G[nt].lab # "user" THEN Str("dollar", "free")
+                   ELSE Leaf(kind, LabAt(nt, kind))
 LeafChoices(nt) == IF G[nt].kinds = {} THEN {"none"}
                    ELSE IF G[nt].kinds \cap GMKinds = {} THEN G[nt].kinds ELSE G[nt].kinds \cap GMKinds
 \* paths are extended from one leaf choice only (the successors do not depend on the leaf)
